@@ -180,7 +180,15 @@ class StrKeyed(dict[str, T]): pass
 class Pair(tuple[int, str]): pass
 K = TypeVar('K'); V = TypeVar('V')
 class Rev(dict[V, K], Generic[K, V]): pass      # declares its type variables in another order than its base uses them
+type L[T] = list[T]                             # PEP 695 parametrised aliases
+type P[T] = tuple[T, T]
 CASES = [
+ ('L[int] (PEP 695 alias)', L[int], [1, 2], ['x', 'y']),
+ ('list[L[int]] (alias below a container)', list[L[int]], [[1]], [['x'], ['y']]),
+ ('L[list[int]] (container below an alias)', L[list[int]], [[1]], [['x'], ['y']]),
+ ('L[L[int]] (alias nested in itself)', L[L[int]], [[1]], [['x'], ['y']]),
+ ('P[P[int]] (alias nested in itself)', P[P[int]], ((1, 2), (3, 4)), (('x', 'y'), ('z', 'w'))),
+ ('L[P[int]] (one alias below another)', L[P[int]], [(1, 2)], [('x', 'y')]),
  ('Rev[int, str] (reordered type variables)', Rev[int, str], Rev({'a': 1}), Rev({1: 'a'})),
  ('IntList', IntList, IntList([1, 2]), IntList(['a', 'b', 'c'])),
  ('IntList | None', IntList | None, IntList([1, 2]), IntList(['a', 'b', 'c'])),
